@@ -30,6 +30,32 @@ def o1(chk, repo, models):
                 _o1_run(chk, m, mname, run)
 
 
+def _mesh_sign(e):
+    """Sign of an integer polynomial in mesh sizes, every size being at least 2
+    (a lifting surface has at least two chordwise and two spanwise mesh lines):
+    substitute s = 2 + t, t >= 0 and read the coefficient signs.  'pos' means
+    non-negative everywhere and positive for some admissible sizes."""
+    e = sp.expand(sp.sympify(e))
+    if e == 0:
+        return "zero"
+    syms = sorted(e.free_symbols, key=str)
+    ts = {x: sp.Symbol("t_%d" % i, nonnegative=True) for i, x in enumerate(syms)}
+    q = sp.expand(e.subs({x: 2 + t for x, t in ts.items()}))
+    try:
+        coeffs = list(sp.Poly(q, *ts.values()).coeffs()) if syms else [q]
+    except Exception:
+        return None
+    if not all(c.is_number for c in coeffs):
+        return None
+    if all(c > 0 for c in coeffs):
+        return "pos"
+    if all(c >= 0 for c in coeffs):
+        return "pos" if any(c > 0 for c in coeffs) else "zero"
+    if all(c <= 0 for c in coeffs):
+        return "nonpos"
+    return None
+
+
 def _o1_run(chk, m, mname, run):
     c = m.cls
     offs = {}  # OFF symbol -> offset event
@@ -139,6 +165,17 @@ def _o1_run(chk, m, mname, run):
                 continue
             lo = rng[0]
             n = sp.expand(rng[1] - rng[0])
+            if lo is not None and lo != 0 and ev0.init == 0 and _mesh_sign(lo) in ("pos", "nonneg"):
+                # indices offset + [lo, hi) with lo >= 0: the block stays inside this
+                # surface's share of the axis only if hi <= advance
+                over = _mesh_sign(sp.expand(rng[1] - ev0.adv))
+                if over == "pos":
+                    chk.violation("O1", key, w, "index block %s + [%s, %s) reaches beyond the per-iteration advance %s of %s for admissible mesh sizes under %s: it runs into the next surface's block" % (ev0.name, lo, rng[1], ev0.adv, ev0.name, sig_txt(run.sigma)))
+                elif over in ("zero", "nonpos", "neg"):
+                    chk.ok("O1", key, w, "index block offset + [%s, %s) within advance %s" % (lo, rng[1], ev0.adv))
+                else:
+                    chk.undecided("O1", key, w, "index block offset + [%s, %s) not comparable with advance %s" % (lo, rng[1], ev0.adv))
+                continue
             if lo is None or lo != 0:
                 continue
             if sp.expand(n - ev0.adv) == 0 and ev0.init == 0:
@@ -156,13 +193,15 @@ def _o1_run(chk, m, mname, run):
             chk.violation("O1", "%s.%s: offset %s" % (c.name, mname, ev.name), where(c, ev.lineno), "offset %s addresses per-surface blocks but is not advanced in the loop" % ev.name)
 
 
-def o2(chk, repo, models):
-    chk.rule("O2", "a value derived from the element of one loop over surfaces/sections is not used in a later loop over the same list without being re-derived", min_decided=20)
+def o2(chk, repo, models, rule="O2", methods=None, min_decided=20, text="a value derived from the element of one loop over surfaces/sections is not used in a later loop over the same list without being re-derived"):
+    chk.rule(rule, text, min_decided=min_decided)
     for m in models:
         c = m.cls
         if c.name in POSTPROCESSING:
             continue
         for mname, runs in m.runs.items():
+            if methods is not None and mname not in methods:
+                continue
             stale = {}
             loops_seen = set()
             for run in runs:
@@ -174,17 +213,79 @@ def o2(chk, repo, models):
                             loops_seen.add(l.node.lineno)
             for (nm, lb), e in stale.items():
                 chk.violation(
-                    "O2",
+                    rule,
                     "%s.%s: '%s' in loop at line %d" % (c.name, mname, nm, lb),
                     where(c, e.lineno),
                     "'%s' (= %s) was derived from the element of the loop at line %d (assigned at line %d) and is used in the later loop over the same list at line %d without being re-derived: every iteration sees the last element's value" % (nm, e.val.sym if e.val.sym is not None else e.val.cx, e.loop_a, e.assigned_line, lb),
                 )
             for ln in sorted(loops_seen):
                 if not any(lb == ln for (_, lb) in stale):
-                    chk.ok("O2", "%s.%s: loop at line %d" % (c.name, mname, ln), where(c, ln), "no stale per-element value")
+                    chk.ok(rule, "%s.%s: loop at line %d" % (c.name, mname, ln), where(c, ln), "no stale per-element value")
+
+
+def o7(chk, repo):
+    """The MPhys wrapper maps the same flight-condition inputs onto MPhys names whichever solver it wraps."""
+    from ..groups import runs_with_policy
+    from ..wiring import child_sigma, class_iface
+
+    chk.rule("O7", "in the MPhys wrapper groups, the inputs of a wrapped native subsystem that are promoted under another (MPhys) name are the same in every option valuation of the wrapper, up to inputs the wrapped class does not have in that valuation: if 'beta' is mapped to the MPhys yaw angle for the compressible solver it is for the incompressible one too.  Otherwise the input keeps its own name, nothing drives it, and the wrapper silently analyses a different flight condition from the native groups", min_decided=2)
+    for gname in ("AeroSolverGroup", "AeroFuncsGroup"):
+        g = [c for c in repo.groups() if c.name == gname and "/mphys/" in c.mod.rel]
+        if not g:
+            chk.undecided("O7", gname, "openaerostruct/mphys", "class not found")
+            continue
+        g = g[0]
+        try:
+            runs = runs_with_policy(repo, g, lambda a_: None)
+        except Exception as ex:
+            chk.undecided("O7", gname, g.where, "setup not enumerated: %s" % ex)
+            continue
+        per = {}  # subsystem name -> [(run, renamed set or None, iface inputs)]
+        for gr in runs:
+            for s_ in gr.subsystems:
+                if s_.owner != "self":
+                    continue
+                ren = set()
+                ok = True
+                for kw in ("promotes", "promotes_inputs"):
+                    v = s_.kwargs.get(kw)
+                    if v is None:
+                        continue
+                    if v.items is None:
+                        ok = False
+                        continue
+                    for x in v.items:
+                        if x.kind == "tuple" and x.items is not None and len(x.items) == 2 and x.items[0].kind == "str" and x.items[0].tmpl is not None:
+                            ren.add(x.items[0].tmpl)
+                        elif x.kind == "str":
+                            pass
+                        else:
+                            ok = False
+                iface = class_iface(repo, s_.cls, child_sigma(gr.sigma, s_)) if s_.cls is not None else None
+                per.setdefault((s_.name or "?").replace("[0]", "[i]"), []).append((gr, ren if ok else None, iface))
+        for sname, lst in sorted(per.items()):
+            key = "%s %s: renamed inputs agree across valuations" % (gname, sname)
+            if any(r is None for _, r, _ in lst):
+                chk.undecided("O7", key, g.where, "promotes list not resolved")
+                continue
+            bad = None
+            for gr_a, ren_a, _ in lst:
+                for gr_b, ren_b, if_b in lst:
+                    if gr_a is gr_b:
+                        continue
+                    for var in sorted(ren_a - ren_b):
+                        if if_b is not None and if_b.known and var in if_b.inputs:
+                            bad = bad or (var, gr_a, gr_b)
+            if bad:
+                chk.violation("O7", key, g.where, "input '%s' of '%s' is promoted under its MPhys name under %s but not under %s, where the wrapped subsystem has that input too: there it keeps its own name and nothing drives it" % (bad[0], sname, sig_txt(bad[1].sigma), sig_txt(bad[2].sigma)))
+            elif len(lst) < 2:
+                chk.info("O7", key, g.where, "single valuation")
+            else:
+                chk.ok("O7", key, g.where, "renamed inputs %s in all %d valuations (up to inputs absent from the wrapped class)" % (sorted(set.union(*[r for _, r, _ in lst])), len(lst)))
 
 
 def run(chk, repo, tier):
+    o7(chk, repo)
     models = all_models(repo, chk)
     o1(chk, repo, models)
     o2(chk, repo, models)
